@@ -71,6 +71,44 @@ CHECKS["C12"] = (
     "bounds, unscaled WrappingMatcher.replace) are tolerated only for their exact clause/weighting.",
     "TLA+ cursor+bounds specification; code->spec trace validation")
 
+_IXS_NOTE = ("Trusted: TLC; the tracing storages in harness/storage.py (Whoosh's Storage extension point; each operation "
+             "and its event form one atomic step of the log, across threads by a mutex and across processes by a "
+             "flock); the summary of a renamed TOC is read back with the public TOC.read. Power-loss reordering "
+             "(no fsync model) and Windows delete-while-open semantics are not modelled.")
+CHECKS["C02"] = (
+    "model_checking",
+    "IndexStore.tla has one action per storage operation of the commit protocol and a Crash action enabled at "
+    "every step; TLC checks Recoverable/OrphanFree in every state. A real writer process is killed with os._exit at "
+    "storage-operation boundaries (every non-write boundary plus sampled writes, 8 transaction shapes, truncated open "
+    "files), the directory is reopened, probed and written again, and the whole trace is validated by "
+    "IndexStoreTrace.tla (each event must be an enabled action; every invariant holds after every event).",
+    "DESIGN.md 4.1, 5 (C02)", _IXS_NOTE,
+    "TLA+ protocol spec model-checked with crashes; fault injection at every storage operation; trace validation")
+CHECKS["C03"] = (
+    "model_checking",
+    "Reader actions of IndexStore.tla (list, open TOC, open segment, retry, probe) interleaved with writers in the "
+    "model; storage traces of sequential histories with held/refreshed searchers and of concurrent writer/reader "
+    "threads are validated: every probe must equal content[generation the reader opened], up_to_date() must agree "
+    "with the reader's last directory listing, readers open only files of their generation.",
+    "DESIGN.md 4.1, 5 (C03)", _IXS_NOTE,
+    "TLA+ protocol spec + trace validation of real reader/writer interleavings")
+CHECKS["C04"] = (
+    "model_checking",
+    "Lock actions and the commit-point guard (one generation forward from the newest, TOC read under the lock, "
+    "content chain) in IndexStore.tla; LockMutex/GenChain as invariants and lock freedom as a liveness property "
+    "under fairness; traces of 2-4 racing writer threads, 2-3 racing processes on the real flock, fork-while-locked, "
+    "AsyncWriter and BufferedWriter, with commit/cancel/failing with-block outcomes, are validated event by event.",
+    "DESIGN.md 4.1, 5 (C04)", _IXS_NOTE + " The wall-clock length of the timeout is not asserted.",
+    "TLA+ protocol spec (safety + liveness) + trace validation of racing writers")
+CHECKS["C07"] = (
+    "model_checking",
+    "The dictionary model is the commit-point effect content' = (content \\ dels) u adds of IndexStore.tla, with "
+    "update_document deleting committed documents that share ANY unique field value, DeleteCount for returned "
+    "counts, cancel/failing with-block as unlock-without-rename. Random histories over successive writers are "
+    "traced; after every commit 9 read paths, doc_count, has_deletions are probed and judged by TLC.",
+    "DESIGN.md 4.2, 5 (C07)", _IXS_NOTE,
+    "TLA+ spec of document-level commit semantics + trace validation of random histories")
+
 NOT_YET = {}
 
 
